@@ -8,6 +8,7 @@ TABLE = {
     "T2": ("t2_fold", "FoldOps.lean"),
     "T6": ("t6_schema", "AstSchema.lean"),
     "T3": ("t3_classes", "ClassTable.lean"),
+    "T4": ("t4_frames", "FrameTable.lean"),
 }
 
 
